@@ -491,35 +491,43 @@ func (d *msgpackDecDriver[T]) nextValueBytesBdReadR() {
 	case mpArray16:
 		x := d.r.readn2()
 		clen = uint(bigen.Uint16(x))
+		d.d.depthIncr() // skipped containers count towards MaxDepth like decoded ones: the walker recurses
 		for i := uint(0); i < clen; i++ {
 			d.readNextBd()
 			d.nextValueBytesBdReadR()
 		}
+		d.d.depthDecr()
 	case mpArray32:
 		x := d.r.readn4()
 		clen = uint(bigen.Uint32(x))
+		d.d.depthIncr() // skipped containers count towards MaxDepth like decoded ones: the walker recurses
 		for i := uint(0); i < clen; i++ {
 			d.readNextBd()
 			d.nextValueBytesBdReadR()
 		}
+		d.d.depthDecr()
 	case mpMap16:
 		x := d.r.readn2()
 		clen = uint(bigen.Uint16(x))
+		d.d.depthIncr()
 		for i := uint(0); i < clen; i++ {
 			d.readNextBd()
 			d.nextValueBytesBdReadR()
 			d.readNextBd()
 			d.nextValueBytesBdReadR()
 		}
+		d.d.depthDecr()
 	case mpMap32:
 		x := d.r.readn4()
 		clen = uint(bigen.Uint32(x))
+		d.d.depthIncr()
 		for i := uint(0); i < clen; i++ {
 			d.readNextBd()
 			d.nextValueBytesBdReadR()
 			d.readNextBd()
 			d.nextValueBytesBdReadR()
 		}
+		d.d.depthDecr()
 	default:
 		switch {
 		case bd >= mpPosFixNumMin && bd <= mpPosFixNumMax: // pass
@@ -529,18 +537,22 @@ func (d *msgpackDecDriver[T]) nextValueBytesBdReadR() {
 			d.r.skip(clen)
 		case bd >= mpFixArrayMin && bd <= mpFixArrayMax:
 			clen = uint(mpFixArrayMin ^ bd)
+			d.d.depthIncr()
 			for i := uint(0); i < clen; i++ {
 				d.readNextBd()
 				d.nextValueBytesBdReadR()
 			}
+			d.d.depthDecr()
 		case bd >= mpFixMapMin && bd <= mpFixMapMax:
 			clen = uint(mpFixMapMin ^ bd)
+			d.d.depthIncr()
 			for i := uint(0); i < clen; i++ {
 				d.readNextBd()
 				d.nextValueBytesBdReadR()
 				d.readNextBd()
 				d.nextValueBytesBdReadR()
 			}
+			d.d.depthDecr()
 		default:
 			halt.errorf("nextValueBytes: cannot infer value: %s: Ox%x/%d/%s", msgBadDesc, bd, bd, mpdesc(bd))
 		}
